@@ -230,7 +230,12 @@ class _DetourContext:
 
     for src, dest in new_mappings:
       if src not in self._original_new:
-        self._original_new[src] = src.__new__
+        original_new = src.__new__
+        if _is_detoured_new(original_new):
+          # `src` inherits the patched `__new__` of an already detoured base
+          # class: its original `__new__` is resolved through its bases.
+          original_new = object.__new__
+        self._original_new[src] = original_new
         setattr(src, '__new__', _maybe_detoured_new)
       cur_mappings[src] = dest
     self._detour_stack.append(cur_mappings)
